@@ -16,7 +16,10 @@ const (
 	kfListOpen  = "KF-C13-list-after-open"
 	kfNoteOpen  = "KF-C13-note-after-open"
 	kfOpenBuilt = "KF-C13-open-builtin-ids"
+	kfTOCRemove = "KF-C13-toc-removed-style"
 )
+
+var reTOCID = regexp.MustCompile(`^(1[2-9]|2[01])$`)
 
 var reDetail = regexp.MustCompile(`\[kind=(\w+) id=("(?:[^"\\]|\\.)*") flags=([^\]]*)\]$`)
 
@@ -160,8 +163,8 @@ var findings = []kit.Finding[Case]{
 	{
 		ID:     kfListOpen,
 		Clause: "C13.X2",
-		Desc:   "a list item added to a document opened in another process than the one that numbered it rewrites word/numbering.xml from the process registry only: the w:num definitions the existing list paragraphs refer to are dropped",
-		// input class: a list op after a fresh-process open of a document that had list items; the orphaned numId existed at that open
+		Desc:   "a list item added to an opened document rewrites word/numbering.xml from the document's own, empty numbering registry: the w:num definitions the existing list paragraphs refer to are dropped",
+		// input class: a list op after any open (reopen op or foreign start) of a document that had list items; the orphaned numId existed at that open
 		Trigger: func(c Case, f kit.Failure) bool {
 			kind, _, flags, ok := parse(f)
 			if !ok || kind != "numId" || f.Clause != "C13.X2" || !flags["pre-open"] {
@@ -173,7 +176,7 @@ var findings = []kit.Finding[Case]{
 	{
 		ID:     kfNoteOpen,
 		Clause: "C13.X3",
-		Desc:   "a footnote/endnote added to a document opened in another process than the one that wrote its notes rewrites the notes part from the process registry only: the notes the existing references point to are dropped",
+		Desc:   "a footnote/endnote added to an opened document rewrites the notes part from the document's own, empty note registry: the notes the existing references point to are dropped",
 		Trigger: func(c Case, f kit.Failure) bool {
 			kind, _, flags, ok := parse(f)
 			if !ok || (kind != "footnote" && kind != "endnote") || f.Clause != "C13.X3" || !flags["pre-open"] {
@@ -193,10 +196,36 @@ var findings = []kit.Finding[Case]{
 			if !ok || kind != "pStyle" || f.Clause != "C13.X1" || !flags["opened-without"] || !reEmitted.MatchString(id) {
 				return false
 			}
-			if c.Start == nil || (!c.Start.Strip && c.Start.Scheme == "none") {
+			// the opened styles part lacks the id because the package came localised/stripped, or because this
+			// history removed that predefined style before saving and reopening
+			foreign := c.Start != nil && (c.Start.Strip || c.Start.Scheme != "none")
+			removedThenReopened := hasOp(c, func(op Op) bool { return op.K == "st.remove" && len(op.S) > 0 && op.S[0] == id }) &&
+				hasOp(c, func(op Op) bool { return op.K == "reopen" })
+			if !foreign && !removedThenReopened {
 				return false
 			}
 			return hasOp(c, func(op Op) bool { return op.K == "heading" || isTOCOp(op.K) })
+		},
+	},
+	{
+		ID:     kfTOCRemove,
+		Clause: "C13.X1",
+		Desc:   "GenerateTOC/AutoGenerateTOC/UpdateTOC give their entry and field paragraphs the TOC style ids 12-21 (AutoGenerateTOC also Heading1 for the paragraph closing the field) without looking at the registry: after RemoveStyle of such an (unused) style the TOC refers to an id the styles part no longer defines",
+		// input class: RemoveStyle of exactly that predefined id followed by a TOC op; for Heading1 the reference must be the
+		// one inside the TOC content control written by AutoGenerateTOC (a heading paragraph of the body is not absorbed)
+		Trigger: func(c Case, f kit.Failure) bool {
+			kind, id, flags, ok := parse(f)
+			if !ok || kind != "pStyle" || f.Clause != "C13.X1" || !flags["removed"] {
+				return false
+			}
+			removedHere := hasOp(c, func(op Op) bool { return op.K == "st.remove" && len(op.S) > 0 && op.S[0] == id })
+			switch {
+			case reTOCID.MatchString(id):
+				return removedHere && hasOp(c, func(op Op) bool { return isTOCOp(op.K) })
+			case id == "Heading1":
+				return removedHere && flags["in-sdt"] && hasOp(c, func(op Op) bool { return op.K == "autotoc" })
+			}
+			return false
 		},
 	},
 }
